@@ -52,6 +52,11 @@ def run_case(spec):
             c = drv.a.code
             return None if c is None else c + "x"
         drv.code_for_b = code_for_b
+    chained = 0
+    for app in (drv.a, drv.b):
+        if app.api == "deferred" and rng.random() < 0.5:
+            app.chain_gets_from_key_callback(rng.choice([("versions",), ("versions", "verifier"), ("verifier", "versions"), ("code", "versions")]))
+            chained += 1
     budget = {"A": rng.randint(0, 12), "B": rng.randint(0, 12)}
     counters = {"extra_gets": 0, "gets_after_close": 0}
     base_actions = drv.actions
@@ -116,6 +121,20 @@ def run_case(spec):
                              "msg": "%s (%s API): event order %s" % (app.name, app.api, core), "witness": wit(app)})
                 break
             hi = max(hi, ORDER[k])
+        # the same order must hold for an application that asks for later events from inside an earlier
+        # event's callback: the first observation of each kind, in firing order
+        first_seen = []
+        for k in app.order:
+            k0 = k.rstrip("+")
+            if k0 in ORDER and k0 not in first_seen:
+                first_seen.append(k0)
+        hi2 = -1
+        for k0 in first_seen:
+            if ORDER[k0] < hi2:
+                viol.append({"key": "C18/order-seen-by-chained-gets/%s-late" % k0,
+                             "msg": "%s: first observations in firing order %s (all observations: %s)" % (app.name, first_seen, app.order[:20]), "witness": wit(app)})
+                break
+            hi2 = max(hi2, ORDER[k0])
         if ("msg" in core or "versions" in core) and "verifier" not in core[:min([core.index(x) for x in ("msg", "versions") if x in core])]:
             viol.append({"key": "C18/data-before-verifier", "msg": "%s: %s" % (app.name, core), "witness": wit(app)})
         if spec["server"] == "plain" and "msg" in core and ("versions" not in core or core.index("versions") > core.index("msg")):
